@@ -62,10 +62,6 @@ pub proof fn lemma_ap(s: Seq<Tok>, k: u64, present: bool, is_empty: bool, raw: O
 pub proof fn lemma_ap_ps(s: Seq<Tok>, k: u64, ps: Option<PlutusScripts>, l: Language, raw: Option<Vec<u8>>)
     ensures ap_ps(s, k, ps, l, raw) =~= s + ap_ps(Seq::empty(), k, ps, l, raw)
 { }
-pub proof fn lemma_shift(s: Seq<Tok>, x: Seq<Tok>, y: Seq<Tok>, fx: Seq<Tok>, fy: Seq<Tok>, d: Seq<Tok>)
-    requires x == s + y, fx == x + d, fy == y + d
-    ensures fx == s + fy
-{ assert(fx =~= s + fy); }
 pub proof fn lemma_a0(s: Seq<Tok>, x: Seq<Tok>, y: Seq<Tok>, w: TransactionWitnessSet, r: TransactionWitnessSetRaw)
     requires x == s + y ensures a0(x, w, r) == s + a0(y, w, r)
 {
